@@ -136,10 +136,14 @@ Definition spec_tlv_summary (b : bytes) : option (list (Z * Z)) :=
   | None => None
   end.
 
+(* nested [if]s rather than [&&]: vm_compute is strict, and the later tests
+   are only cheap once the earlier ones hold *)
 Definition reenc_ok (b r : bytes) : bool :=
-  (blen r =? spec_get FmessageLength b)
-  && forallb (same_field b r) (spec_fields (spec_msg_type b))
-  && bytes_eqb (spec_tlv_area r) (spec_tlv_area b).
+  if blen r =? spec_get FmessageLength b then
+    if forallb (same_field b r) (spec_fields (spec_msg_type b)) then
+      bytes_eqb (spec_tlv_area r) (spec_tlv_area b)
+    else false
+  else false.
 
 Definition ok_C04 (b : bytes) (o : observed) : bool :=
   o_local o &&
@@ -147,17 +151,19 @@ Definition ok_C04 (b : bytes) (o : observed) : bool :=
   | ObsErr _ => negb (spec_wellformed b)
   | ObsOk main req tlvs probes =>
       let L := spec_get FmessageLength b in
-      spec_wellformed b && req
-      && match spec_tlv_summary b with Some t => list_eqb zz_eqb t tlvs | None => false end
-      && (if L <=? 2048 then
-            match main with PBytes r => reenc_ok b r | _ => false end
-          else true)
-      && forallb (fun p =>
-           match snd p with
-           | PBytes r => (L <=? fst p) && reenc_ok b r
-           | PPanic => fst p <? L
-           | PErr _ => false
-           end) probes
+      if spec_wellformed b then
+        req
+        && match spec_tlv_summary b with Some t => list_eqb zz_eqb t tlvs | None => false end
+        && (if L <=? 2048 then
+              match main with PBytes r => reenc_ok b r | _ => false end
+            else true)
+        && forallb (fun p =>
+             match snd p with
+             | PBytes r => (L <=? fst p) && reenc_ok b r
+             | PPanic => fst p <? L
+             | PErr _ => false
+             end) probes
+      else false
   end.
 
 (** Known findings (see /verif/known_findings.txt).
@@ -172,7 +178,7 @@ Definition last_tlv_empty (b : bytes) : bool :=
 Definition kf_C04 (c : case) : Z :=
   match o_res (snd c) with
   | ObsErr EBufferTooShort =>
-      if spec_wellformed (fst c) && last_tlv_empty (fst c) then 1 else 0
+      if spec_wellformed (fst c) then if last_tlv_empty (fst c) then 1 else 0 else 0
   | _ => 0
   end.
 
